@@ -78,6 +78,58 @@ type site struct {
 	Steps  []step
 	// ForkLevels: the stages at which a builder chain is forked (nil = every stage)
 	ForkLevels []int
+	// NoNil: no "nilable-types" registration (type-class families: their defining equation
+	// inspects the values through the component instances; Chain builders below arity 9: see buildSites)
+	NoNil bool
+	// NilOnly: the site exists for the nilable-types instantiation only (no Reg line: the site
+	// table of the two older instantiations, and with it their PRNG streams, stays as it was)
+	NilOnly bool
+}
+
+// TC: a type-class site (eq/ord/hash/monoid/clone TupleN): string-kinded arguments (rt.Val),
+// values converted directly. Every other site is generic over any (Labelled families:
+// rt.Named) and creates / reads its values through rt.Mk / rt.Rd.
+func (s *site) TC() bool { return strings.HasPrefix(s.Tmpl, "tc_") }
+
+// Con is the constraint of the type parameters of the site.
+func (s *site) Con() string {
+	switch {
+	case s.TC():
+		return "Val"
+	case s.Mk == "MkLab" || s.Obs == "Lab":
+		return "Named"
+	}
+	return "any"
+}
+
+func (s *site) TPS() string { return tpsC(s.TP, s.Con()) }
+
+// the palettes of the nilable-types instantiation: kind letter (rt.KindName) and Go type
+var (
+	paletteAny   = [][2]string{{"s", "PSlice"}, {"m", "PMap"}, {"p", "*PBox"}, {"f", "PFunc"}, {"e", "error"}, {"a", "any"}, {"i", "PIface"}, {"t", "PStruct"}, {"g", "PStr"}, {"n", "PInt"}, {"b", "PBool"}}
+	paletteNamed = [][2]string{{"s", "PSlice"}, {"m", "PMap"}, {"p", "*PBox"}, {"f", "PFunc"}, {"i", "PIface"}, {"t", "PStruct"}, {"g", "PStr"}, {"n", "PInt"}, {"b", "PBool"}}
+)
+
+// nilInst: the type arguments and the kind letters of the nilable-types instantiation of s.
+// Right-aligned like instT (position k of n takes palette entry 22-n+k, so the families that
+// recurse on the tail share instantiations across arities), rotated by a per-package offset
+// so that over the packages / families / arities every kind reaches every position.
+func (s *site) nilInst() (types, kinds string) {
+	pal := paletteAny
+	if s.Con() == "Named" {
+		pal = paletteNamed
+	}
+	off := 0
+	for _, ch := range []byte(s.File + s.Family) {
+		off += int(ch)
+	}
+	var ts []string
+	for k := 1; k <= s.TP; k++ {
+		e := pal[(22-s.TP+k+off)%len(pal)]
+		ts = append(ts, e[1])
+		kinds += e[0]
+	}
+	return "[" + strings.Join(ts, ", ") + "]", kinds
 }
 
 func (s *site) Fn() string {
@@ -117,6 +169,9 @@ func mapJoin(is []int, sep string, f func(int) string) string {
 
 func pfx(p string) func(int) string { return func(k int) string { return fmt.Sprintf("%s%d", p, k) } }
 func strOf(p string) func(int) string {
+	return func(k int) string { return fmt.Sprintf("Rd(%s%d)", p, k) }
+}
+func convOf(p string) func(int) string {
 	return func(k int) string { return fmt.Sprintf("string(%s%d)", p, k) }
 }
 
@@ -139,12 +194,14 @@ func adecl(a, b int) string {
 func ccall(a, b int) string {
 	return mapJoin(seq(a, b), "", func(k int) string { return fmt.Sprintf("(a%d)", k) })
 }
-func tps(n int) string {
+func tpsC(n int, con string) string {
 	if n == 0 {
 		return ""
 	}
-	return "[" + TA(1, n) + " Val]"
+	return "[" + TA(1, n) + " " + con + "]"
 }
+func tps(n int) string  { return tpsC(n, "any") }
+func tpsN(n int) string { return tpsC(n, "Named") }
 func inst(n int) string {
 	if n == 0 {
 		return ""
@@ -214,15 +271,7 @@ func nest(a, b int) string { // fp.Tuple2[A1, fp.Tuple2[A2, ... fp.Tuple2[A(b-1)
 }
 
 func joinPlus(a, b int) string {
-	return mapJoin(seq(a, b), ` + "," + `, strOf("a"))
-}
-
-func nestedSteps(n int) string {
-	open := ""
-	for k := n; k >= 1; k-- {
-		open += fmt.Sprintf("f%d(", k)
-	}
-	return fmt.Sprintf("%q + string(a1) + %q", open, strings.Repeat(")", n))
+	return mapJoin(seq(a, b), ` + "," + `, func(k int) string { return fmt.Sprintf("Sv(a%d)", k) })
 }
 
 func pures(m *monad, a, b int) string {
@@ -266,7 +315,7 @@ func stepCall(s *site, st step, name func(int) string) string {
 	a := name(k)
 	A := fmt.Sprintf("A%d", k)
 	nstrsr := func(hi, lo int) string {
-		return mapJoin(rseq(hi, lo), ", ", func(i int) string { return "string(" + name(i) + ")" })
+		return mapJoin(rseq(hi, lo), ", ", func(i int) string { return "Rd(" + name(i) + ")" })
 	}
 	switch st.Method {
 	case "Ap":
@@ -293,7 +342,7 @@ func stepCall(s *site, st step, name func(int) string) string {
 		if k == 1 {
 			fmt.Fprintf(&b, "%s(func(_ hlist.Nil) %s { return %s })", st.Method, ret, val)
 		} else {
-			fmt.Fprintf(&b, "%s(func(h A%d) %s { c.Prev(%d, string(h), string(%s)); return %s })", st.Method, k-1, ret, k, name(k-1), val)
+			fmt.Fprintf(&b, "%s(func(h A%d) %s { c.Prev(%d, Rd(h), Rd(%s)); return %s })", st.Method, k-1, ret, k, name(k-1), val)
 		}
 	case "HListMap", "HListFlatMap":
 		ret, val := A, a
@@ -400,8 +449,10 @@ func reuse(s *site, expr, wrap string) string {
 
 var funcs = template.FuncMap{
 	"seq": seq, "rseq": rseq, "TA": TA, "TAr": TAr, "args": args, "argsr": argsr, "pargs": pargs,
-	"strs": strs, "strsr": strsr, "pstrs": pstrs, "decl": decl, "adecl": adecl, "ccall": ccall, "tps": tps, "inst": inst,
-	"consF": consF, "consR": consR, "cur": cur, "nest": nest, "joinPlus": joinPlus, "nestedSteps": nestedSteps,
+	"strs": strs, "strsr": strsr, "pstrs": pstrs, "decl": decl, "adecl": adecl, "ccall": ccall, "tps": tps, "tpsN": tpsN, "inst": inst,
+	"sstrs":  func(a, b int) string { return mapJoin(seq(a, b), ", ", convOf("a")) },
+	"sbstrs": func(a, b int) string { return mapJoin(seq(a, b), ", ", convOf("b")) },
+	"consF":  consF, "consR": consR, "cur": cur, "nest": nest, "joinPlus": joinPlus,
 	"pures": pures, "insts": insts, "posCalls": posCalls, "funcConv": funcConv, "composeArgs": composeArgs, "chain": chain, "builderForks": builderForks, "curB": curB, "pccall": pccall, "reuse": reuse, "wrapOf": wrapOf,
 	"inc": func(i int) int { return i + 1 }, "dec": func(i int) int { return i - 1 },
 	"xstrs": func(a, b int) string { return pstrs("x", a, b) },
@@ -415,16 +466,22 @@ var funcs = template.FuncMap{
 const bodies = `
 {{define "site"}}
 // {{.Member}}{{if .Sub}} ({{.Sub}}){{end}}
-func {{.Fn}}{{tps .TP}}(c *Cx) {
+func {{.Fn}}{{.TPS}}(c *Cx) {
 	c.Enter({{printf "%q" .Family}}, {{printf "%q" .Member}}, {{.Pos}})
+{{- if .TC}}
 {{- range $k := seq 1 .NV}}
 	a{{$k}} := A{{$k}}(c.V[{{$k}}])
 {{- end}}
 {{- range $k := seq 1 .NU}}
 	b{{$k}} := A{{$k}}(c.U[{{$k}}])
 {{- end}}
+{{- else}}
+{{- range $k := seq 1 .NV}}
+	a{{$k}} := Mk[A{{$k}}](c, {{$k}})
+{{- end}}
 {{- range $k := seq 1 .NY}}
-	y{{$k}} := A{{$k}}(c.Y[{{$k}}])
+	y{{$k}} := MkY[A{{$k}}](c, {{$k}})
+{{- end}}
 {{- end}}
 {{- end}}
 
@@ -664,14 +721,14 @@ func {{.Fn}}{{tps .TP}}(c *Cx) {
 
 {{define "fp_compose"}}{{template "site" .}}
 {{- range $k := seq 1 .N}}
-	f{{$k}} := func(x A{{$k}}) A{{inc $k}} { return A{{inc $k}}(c.Step({{$k}}, string(x))) }
+	f{{$k}} := func(x A{{$k}}) A{{inc $k}} { return MkS[A{{inc $k}}](c, {{inc $k}}, c.Step({{$k}}, Rd(x))) }
 {{- end}}
 	cf := {{.Call}}({{composeArgs .Call .N}})
 	c.Obs(func() {
 		var got A{{inc .N}} = cf(a1)
-		c.Eqs("result", string(got), c.Nested({{.N}}, string(a1)))
-		c.Eqs("result-on-reuse", string(cf(y1)), c.Nested({{.N}}, string(y1)))
-		c.Eqs("result-on-reuse", string(cf(a1)), c.Nested({{.N}}, string(a1)))
+		c.Eqs("result", Rd(got), c.Nested({{.N}}, Rd(a1)))
+		c.Eqs("result-on-reuse", Rd(cf(y1)), c.Nested({{.N}}, Rd(y1)))
+		c.Eqs("result-on-reuse", Rd(cf(a1)), c.Nested({{.N}}, Rd(a1)))
 	})
 }
 {{end}}
@@ -709,26 +766,26 @@ func {{.Fn}}{{tps .TP}}(c *Cx) {
 {{end}}
 
 {{define "fn1_merge"}}{{template "site" .}}
-	in := A{{inc .N}}(c.V[{{inc .N}}])
-	in2 := A{{inc .N}}(c.Y[{{inc .N}}])
+	in := Mk[A{{inc .N}}](c, {{inc .N}})
+	in2 := MkY[A{{inc .N}}](c, {{inc .N}})
 {{- range $k := seq 1 .N}}
-	f{{$k}} := func(x A{{inc $.N}}) A{{$k}} { return A{{$k}}(c.Step({{$k}}, string(x))) }
+	f{{$k}} := func(x A{{inc $.N}}) A{{$k}} { return MkS[A{{$k}}](c, {{$k}}, c.Step({{$k}}, Rd(x))) }
 {{- end}}
 	mf := {{.Call}}({{pargs "f" 1 .N}})
 	c.Obs(func() {
 {{- if eq .Call "fn1.Merge"}}
 		g1, g2 := mf(in)
-		Eqv(c, "results", g1, A1(c.Step(1, string(in))))
-		Eqv(c, "results", g2, A2(c.Step(2, string(in))))
+		c.Eqs("results", Rd(g1), c.StepR(1, 1, Rd(in)))
+		c.Eqs("results", Rd(g2), c.StepR(2, 2, Rd(in)))
 		h1, h2 := mf(in2)
-		Eqv(c, "results-on-reuse", h1, A1(c.Step(1, string(in2))))
-		Eqv(c, "results-on-reuse", h2, A2(c.Step(2, string(in2))))
+		c.Eqs("results-on-reuse", Rd(h1), c.StepR(1, 1, Rd(in2)))
+		c.Eqs("results-on-reuse", Rd(h2), c.StepR(2, 2, Rd(in2)))
 {{- else}}
 		got := mf(in)
-		c.Vec("fields", Tup{{.N}}[{{TA 1 .N}}](got){{range $k := seq 1 .N}}, c.Step({{$k}}, string(in)){{end}})
+		c.Vec("fields", Tup{{.N}}[{{TA 1 .N}}](got){{range $k := seq 1 .N}}, c.StepR({{$k}}, {{$k}}, Rd(in)){{end}})
 		got2 := mf(in2)
-		c.Vec("fields-on-reuse", Tup{{.N}}[{{TA 1 .N}}](got2){{range $k := seq 1 .N}}, c.Step({{$k}}, string(in2)){{end}})
-		c.Vec("fields-on-reuse", Tup{{.N}}[{{TA 1 .N}}](mf(in)){{range $k := seq 1 .N}}, c.Step({{$k}}, string(in)){{end}})
+		c.Vec("fields-on-reuse", Tup{{.N}}[{{TA 1 .N}}](got2){{range $k := seq 1 .N}}, c.StepR({{$k}}, {{$k}}, Rd(in2)){{end}})
+		c.Vec("fields-on-reuse", Tup{{.N}}[{{TA 1 .N}}](mf(in)){{range $k := seq 1 .N}}, c.StepR({{$k}}, {{$k}}, Rd(in)){{end}})
 {{- end}}
 	})
 }
@@ -872,8 +929,8 @@ func {{.Fn}}{{tps .TP}}(c *Cx) {
 {{define "operands"}}
 	t1 := MkTup{{.N}}({{args 1 .N}})
 	t2 := MkTup{{.N}}({{bargs 1 .N}})
-	vs := []string{ {{strs 1 .N}} }
-	us := []string{ {{bstrs 1 .N}} }
+	vs := []string{ {{sstrs 1 .N}} }
+	us := []string{ {{sbstrs 1 .N}} }
 {{- end}}
 
 {{define "tc_eq"}}{{template "site" .}}{{template "operands" .}}
@@ -949,7 +1006,9 @@ const supportTmpl = `
 {{range $n := seq 1 22}}
 type T{{$n}} string
 
-func (T{{$n}}) Name() string { return "T{{$n}}" }
+func (T{{$n}}) Name() string           { return "T{{$n}}" }
+func (t T{{$n}}) RdS() string          { return string(t) }
+func (t *T{{$n}}) SetV(s string, _ bool) { *t = T{{$n}}(s) }
 {{end}}
 
 {{range $n := seq 1 21}}
@@ -957,7 +1016,7 @@ func Tup{{$n}}{{tps $n}}(t fp.Tuple{{$n}}{{inst $n}}) []string {
 	return []string{ {{pstrs "t.I" 1 $n}} }
 }
 
-func Lab{{$n}}{{tps $n}}(t fp.Labelled{{$n}}{{inst $n}}) []string {
+func Lab{{$n}}{{tpsN $n}}(t fp.Labelled{{$n}}{{inst $n}}) []string {
 	return []string{ {{pstrs "t.I" 1 $n}} }
 }
 
@@ -965,7 +1024,7 @@ func MkTup{{$n}}{{tps $n}}({{adecl 1 $n}}) fp.Tuple{{$n}}{{inst $n}} {
 	return fp.Tuple{{$n}}{{inst $n}}{ {{range $k := seq 1 $n}}I{{$k}}: a{{$k}}, {{end}} }
 }
 
-func MkLab{{$n}}{{tps $n}}({{adecl 1 $n}}) fp.Labelled{{$n}}{{inst $n}} {
+func MkLab{{$n}}{{tpsN $n}}({{adecl 1 $n}}) fp.Labelled{{$n}}{{inst $n}} {
 	return fp.Labelled{{$n}}{{inst $n}}{ {{range $k := seq 1 $n}}I{{$k}}: a{{$k}}, {{end}} }
 }
 
@@ -975,7 +1034,7 @@ func Hl{{$n}}{{tps $n}}(h {{consF 1 $n}}) []string {
 	h{{$k}} := hlist.Tail(h{{dec $k}})
 {{- end}}
 	var _ hlist.Nil = hlist.Tail(h{{$n}})
-	return []string{ {{range $k := seq 1 $n}}string(hlist.Head(h{{$k}})), {{end}} }
+	return []string{ {{range $k := seq 1 $n}}Rd(hlist.Head(h{{$k}})), {{end}} }
 }
 
 func MkHl{{$n}}{{tps $n}}({{adecl 1 $n}}) {{consF 1 $n}} {
@@ -996,9 +1055,9 @@ func Rec{{$n}}{{tps $n}}(c *Cx) func({{TA 1 $n}}) Res {
 // application reached by the arguments x1..x(L-1) two continuations are derived, p(xL) and
 // p(yL), both before either is finished with its own remaining arguments (rt.Fork). pos[i-1]
 // is the original position of the i-th application; x = c.V, y = c.Y at that position.
-func Fork{{$n}}[{{pargs "B" 1 $n}} Val, R any](c *Cx, cf {{curB 1 $n}}, pos []int, show func(R) string, wrap func(string) string) {
+func Fork{{$n}}[{{pargs "B" 1 $n}} any, R any](c *Cx, cf {{curB 1 $n}}, pos []int, show func(R) string, wrap func(string) string) {
 {{- range $k := seq 1 $n}}
-	x{{$k}}, y{{$k}} := B{{$k}}(c.V[pos[{{dec $k}}]]), B{{$k}}(c.Y[pos[{{dec $k}}]])
+	x{{$k}}, y{{$k}} := Mk[B{{$k}}](c, pos[{{dec $k}}]), MkY[B{{$k}}](c, pos[{{dec $k}}])
 {{- end}}
 	p0 := cf
 {{- range $k := seq 1 (dec $n)}}
@@ -1015,7 +1074,7 @@ func Fork{{$n}}[{{pargs "B" 1 $n}} Val, R any](c *Cx, cf {{curB 1 $n}}, pos []in
 {{end}}
 
 {{range $n := seq 1 10}}
-func Cur{{$n}}[{{TA 1 $n}} Val, R any](f func({{TA 1 $n}}) R) {{cur 1 $n "R"}} {
+func Cur{{$n}}[{{TA 1 $n}} any, R any](f func({{TA 1 $n}}) R) {{cur 1 $n "R"}} {
 	return {{range $k := seq 1 $n}}func(x{{$k}} A{{$k}}) {{cur (inc $k) $n "R"}} { return {{end}}f({{pargs "x" 1 $n}}){{range $k := seq 1 $n}} }{{end}}
 }
 {{end}}
@@ -1039,6 +1098,9 @@ func buildSites() []*site {
 			s.NY = s.N
 		case "fp_compose":
 			s.NY = 1
+		}
+		if s.TC() || s.TP == 0 {
+			s.NoNil = true
 		}
 		out = append(out, s)
 	}
@@ -1191,6 +1253,14 @@ func buildSites() []*site {
 				if n == maxFunc {
 					variants = append(append([]string{}, methods...), "mixed")
 				}
+				// the plain-value method Ap is the one builder method that hands the argument VALUE
+				// itself to the library: below arity 9 an all-Ap chain is added for the nilable-types
+				// instantiation, so that every member meets nil at every position through Ap
+				nilOnly := ""
+				if n >= 2 && n < maxFunc && (kind == "Applicative" || nilChainArity[n]) {
+					variants = append(variants, "Ap")
+					nilOnly = "Ap"
+				}
 				for vi, v := range variants {
 					var steps []step
 					for k := 1; k <= n; k++ {
@@ -1218,7 +1288,12 @@ func buildSites() []*site {
 						}
 					}
 					add(&site{File: file, Family: m.Pkg + "." + kind, Member: num(m.Pkg+"."+kind, n), Sub: v, Tmpl: "m_builder",
-						N: n, TP: n, NV: n, M: m, Kind: kind, Call: num(m.Pkg+"."+kind, n), Steps: steps})
+						N: n, TP: n, NV: n, M: m, Kind: kind, Call: num(m.Pkg+"."+kind, n), Steps: steps,
+						// nilable-types instantiation of the Chain builders: the arity-9 chains only. Every
+						// method of MonadChain<K>, K = 9..1, lies on them (one chain per method plus the mixed
+						// one) and Chain<N>(f) itself takes no argument value, while each further arity is a
+						// fresh tower of MonadChain instantiations (10..30 CPU-s of compile time each).
+						NoNil: kind == "Chain" && n < maxFunc && !nilChainArity[n], NilOnly: v == nilOnly})
 				}
 			}
 		}
@@ -1235,6 +1310,14 @@ func buildSites() []*site {
 	}
 	return out
 }
+
+// nilChainArity: Chain arities below 9 that get a nilable-types instantiation all the same.
+var nilChainArity = map[int]bool{1: true, 2: true, 3: true, 4: true, 5: true}
+
+// nilSibling: packages whose nilable-types registrations live in a sibling package <file>_nil
+// holding a copy of the site functions, so that the two instantiations compile in parallel
+// (the arity-9 Chain towers are the heaviest packages of the harness).
+func nilSibling(file string) bool { return strings.HasSuffix(file, "_chain9") }
 
 var importsOf = map[string][]string{
 	"fmt":     {"fmt."},
@@ -1326,7 +1409,7 @@ func main() {
 	if *list {
 		seen := map[string]bool{}
 		for _, s := range sites {
-			if !seen[s.Member] {
+			if !seen[s.Member] && !s.NilOnly {
 				seen[s.Member] = true
 				fmt.Printf("%s\t%s\t%d\n", s.Family, s.Member, s.Pos)
 			}
@@ -1346,18 +1429,38 @@ func main() {
 	files := map[string]*bytes.Buffer{}
 	regs := map[string]*bytes.Buffer{}
 	var order []string
-	for _, s := range sites {
-		b := files[s.File]
+	buf := func(file string) *bytes.Buffer {
+		b := files[file]
 		if b == nil {
 			b = &bytes.Buffer{}
-			files[s.File] = b
-			regs[s.File] = &bytes.Buffer{}
-			order = append(order, s.File)
+			files[file] = b
+			regs[file] = &bytes.Buffer{}
+			order = append(order, file)
 		}
-		if err := tm.ExecuteTemplate(b, s.Tmpl, s); err != nil {
+		return b
+	}
+	nnil := 0
+	for _, s := range sites {
+		if err := tm.ExecuteTemplate(buf(s.File), s.Tmpl, s); err != nil {
 			panic(fmt.Sprintf("%s: %v", s.Member, err))
 		}
-		fmt.Fprintf(regs[s.File], "\tReg(%q, %q, %d, %s%s, %s%s)\n", s.Family, s.Member, s.Pos, s.Fn(), instT(s.TP), s.Fn(), instS(s.TP))
+		if !s.NilOnly {
+			fmt.Fprintf(regs[s.File], "\tReg(%q, %q, %d, %s%s, %s%s)\n", s.Family, s.Member, s.Pos, s.Fn(), instT(s.TP), s.Fn(), instS(s.TP))
+		}
+		if s.NoNil {
+			continue
+		}
+		// the nilable-types instantiation: nil-able / zero-able types spread over the positions
+		nnil++
+		nfile := s.File
+		if nilSibling(s.File) {
+			nfile = s.File + "_nil"
+			if err := tm.ExecuteTemplate(buf(nfile), s.Tmpl, s); err != nil {
+				panic(fmt.Sprintf("%s: %v", s.Member, err))
+			}
+		}
+		types, kinds := s.nilInst()
+		fmt.Fprintf(regs[nfile], "\tRegNil(%q, %q, %q, %d, %q, %s%s)\n", s.Family, s.Member, s.Sub, s.Pos, kinds, s.Fn(), types)
 	}
 	sort.Strings(order)
 	var imp strings.Builder
@@ -1369,5 +1472,5 @@ func main() {
 	}
 	imp.WriteString(")\n")
 	write(filepath.Join(*dir, "zz_imports.go"), imp.String())
-	fmt.Printf("generated %d call sites in %d packages\n", len(sites), len(order))
+	fmt.Printf("generated %d call sites (%d with a nilable-types instantiation) in %d packages\n", len(sites), nnil, len(order))
 }
